@@ -139,7 +139,9 @@ def check(case, ev):
     by_id = {}
     for x in oracle.walk(c):
         by_id.setdefault(x.id, set()).add(id(x))
-    if any(len(by_id.get(i, ())) > 1 for i in nd_ids) or common.ambiguous_prio(c):
+    # only ambiguity that follows from the SPEC (an expected non-default-branch id carried by another node as well) is
+    # skipped; where the code puts its tags is what is being judged
+    if any(len(by_id.get(i, ())) > 1 for i in nd_ids):
         ev.count("skipped_ambiguous_branch_sharing")
         return
     # default prio vector: -2 exactly on the non-default branches
